@@ -29,6 +29,7 @@ type fsEvent struct {
 	Len  int64  `json:"len,omitempty"`
 	Op   int    `json:"op,omitempty"` // for ack/begin markers
 	Trunc bool  `json:"trunc,omitempty"`
+	Rel   bool  `json:"rel,omitempty"` // unlink relative to a directory descriptor: part of a RemoveAll, whose order is the listing order
 }
 
 func (e fsEvent) mutating() bool {
@@ -151,6 +152,16 @@ func parseStrace(logPath, root, ackPath string) ([]fsEvent, error) {
 			n, _ := strconv.Atoi(strings.TrimSpace(strings.SplitN(a, "<", 2)[0]))
 			return n
 		}
+		// resolve a path argument relative to a directory descriptor argument (os.RemoveAll works that way)
+		at := func(dirArg, p string) string {
+			if filepath.IsAbs(p) || strings.HasPrefix(strings.TrimSpace(dirArg), "AT_FDCWD") {
+				return p
+			}
+			if st := fds[fdOf(dirArg)]; st != nil {
+				return filepath.Join(st.path, p)
+			}
+			return p
+		}
 		switch name {
 		case "openat", "open", "creat":
 			pi, fi := 1, 2
@@ -160,6 +171,9 @@ func parseStrace(logPath, root, ackPath string) ([]fsEvent, error) {
 				pi, fi = 0, -1
 			}
 			p := strArg(args[pi])
+			if name == "openat" {
+				p = at(args[0], p)
+			}
 			flags := "O_CREAT|O_WRONLY|O_TRUNC"
 			if fi >= 0 && fi < len(args) {
 				flags = args[fi]
@@ -240,7 +254,7 @@ func parseStrace(logPath, root, ackPath string) ([]fsEvent, error) {
 			if name == "rename" {
 				a, b = strArg(args[0]), strArg(args[1])
 			} else {
-				a, b = strArg(args[1]), strArg(args[3])
+				a, b = at(args[0], strArg(args[1])), at(args[2], strArg(args[3]))
 			}
 			a, b = filepath.Clean(a), filepath.Clean(b)
 			if under(a) || under(b) {
@@ -260,8 +274,10 @@ func parseStrace(logPath, root, ackPath string) ([]fsEvent, error) {
 		case "unlink", "unlinkat", "rmdir":
 			var p string
 			isDir := name == "rmdir"
+			rel := false
 			if name == "unlinkat" {
-				p = strArg(args[1])
+				rel = !strings.HasPrefix(strings.TrimSpace(args[0]), "AT_FDCWD")
+				p = at(args[0], strArg(args[1]))
 				isDir = len(args) > 2 && strings.Contains(args[2], "AT_REMOVEDIR")
 			} else {
 				p = strArg(args[0])
@@ -272,13 +288,13 @@ func parseStrace(logPath, root, ackPath string) ([]fsEvent, error) {
 					events = append(events, fsEvent{Kind: "rmdir", Path: p})
 				} else {
 					delete(sizes, p)
-					events = append(events, fsEvent{Kind: "unlink", Path: p})
+					events = append(events, fsEvent{Kind: "unlink", Path: p, Rel: rel})
 				}
 			}
 		case "mkdir", "mkdirat":
 			p := strArg(args[0])
 			if name == "mkdirat" {
-				p = strArg(args[1])
+				p = at(args[0], strArg(args[1]))
 			}
 			p = filepath.Clean(p)
 			if under(p) {
@@ -379,9 +395,12 @@ func hashBytes(b []byte) uint64 {
 func runTraced(sub string, args interface{}, root, ackPath, logPath string, timeout time.Duration) ([]fsEvent, string, error) {
 	self, _ := os.Executable()
 	a, _ := json.Marshal(args)
+	argFile := logPath + ".args.json"
+	must(os.WriteFile(argFile, a, 0644))
+	defer os.Remove(argFile)
 	cmd := exec.Command("strace", "-f", "-xx", "-s", "16777216", "-o", logPath,
 		"-e", "trace=open,openat,creat,close,write,pwrite64,lseek,ftruncate,fsync,fdatasync,rename,renameat,renameat2,unlink,unlinkat,rmdir,mkdir,mkdirat",
-		self, sub, "--args", string(a))
+		self, sub, "--args", "@"+argFile)
 	var out bytes.Buffer
 	cmd.Stdout, cmd.Stderr = &out, &out
 	if err := cmd.Start(); err != nil {
@@ -406,7 +425,12 @@ func runTraced(sub string, args interface{}, root, ackPath, logPath string, time
 func runChild(sub string, args interface{}, timeout time.Duration) (string, string) {
 	self, _ := os.Executable()
 	a, _ := json.Marshal(args)
-	cmd := exec.Command(self, sub, "--args", string(a))
+	af, err := os.CreateTemp(os.Getenv("VERIF_TMP"), "args-*.json")
+	must(err)
+	af.Write(a)
+	af.Close()
+	defer os.Remove(af.Name())
+	cmd := exec.Command(self, sub, "--args", "@"+af.Name())
 	var out, errb bytes.Buffer
 	cmd.Stdout, cmd.Stderr = &out, &errb
 	if err := cmd.Start(); err != nil {
@@ -439,3 +463,14 @@ func newAckWriter(path string) *ackWriter {
 }
 func (a *ackWriter) begin(i int) { fmt.Fprintf(a.f, "B %d\n", i) }
 func (a *ackWriter) ack(i int)   { fmt.Fprintf(a.f, "A %d\n", i) }
+
+// childArgs decodes the --args value of a sub-command ("@file" = read the JSON from that file)
+func childArgs(v string, into interface{}) {
+	data := []byte(v)
+	if strings.HasPrefix(v, "@") {
+		b, err := os.ReadFile(v[1:])
+		must(err)
+		data = b
+	}
+	must(json.Unmarshal(data, into))
+}
